@@ -141,6 +141,7 @@ type c18Env struct {
 }
 
 func c18Run(c *fw.Ctx) {
+	c.Retries = 2 // socket-based harness: tolerate a transient glitch while replaying a prefix
 	vtime.SetManual(harness.T0)
 	defer vtime.SetReal()
 	mon := &c18Monitor{res: c.Res, override: map[*harness.ProxyEnv]map[string]string{}}
